@@ -43,30 +43,33 @@ def gen_cases(tier, seed):
     quick = tier == "quick"
     c1 = "QuerySem.chunk.quick.cfg" if quick else "QuerySem.chunk.thorough.cfg"
     c2 = "QuerySem.laws.quick.cfg" if quick else "QuerySem.laws.thorough.cfg"
+    stride = 100 if quick else 4
     with cf.ThreadPoolExecutor(4) as ex:
-        f1 = ex.submit(tlc, c1, workers=8, timeout=1500)
-        f2 = ex.submit(tlc, c2, workers=8, timeout=1500)
-        nsim = 12 if quick else 150
-        f3 = ex.submit(tlc, "QuerySem.sim.cfg", simulate=nsim, depth=16, seed=seed, timeout=1500)
-        bcfg = "QuerySem.bfs.export.cfg"
-        if quick:       # a seeded sample of the BFS universe: every 100th query, starting at seed % 100
-            os.makedirs(vlib.WORK, exist_ok=True)
-            txt = open(os.path.join(vlib.SPECS, "cfg", bcfg)).read()
-            txt = txt.replace("BfsStride = 1", "BfsStride = 100").replace("BfsOff = 0", f"BfsOff = {seed % 100}")
-            txt = txt.replace("QueryChoices <- BfsQueries", "QueryChoices <- BfsSample")
-            bcfg = os.path.join(vlib.WORK, f"QuerySem.bfs.sample.{os.getpid()}.cfg")
-            open(bcfg, "w").write(txt)
-        f4 = ex.submit(tlc, bcfg, workers=4, timeout=1500)
+        f1 = ex.submit(tlc, c1, workers=8, timeout=2400)
+        f2 = ex.submit(tlc, c2, workers=8, timeout=2400)
+        nsim = 14 if quick else 60
+        f3 = ex.submit(tlc, "QuerySem.sim.cfg", simulate=nsim, depth=16, seed=seed, timeout=2400)
+        # a seeded sample of the BFS universe: every stride-th query, starting at seed % stride
+        os.makedirs(vlib.WORK, exist_ok=True)
+        txt = open(os.path.join(vlib.SPECS, "cfg", "QuerySem.bfs.export.cfg")).read()
+        txt = txt.replace("BfsStride = 1", f"BfsStride = {stride}").replace("BfsOff = 0", f"BfsOff = {seed % stride}")
+        txt = txt.replace("QueryChoices <- BfsQueries", "QueryChoices <- BfsSample")
+        bcfg = os.path.join(vlib.WORK, f"QuerySem.bfs.sample.{os.getpid()}.cfg")
+        open(bcfg, "w").write(txt)
+        f4 = ex.submit(tlc, bcfg, workers=4, timeout=2400)
         r1, r2, r3, r4 = f1.result(), f2.result(), f3.result(), f4.result()
-    if quick:
-        os.remove(bcfg)
+    os.remove(bcfg)
     stats["chunk"] = {k: r1[k] for k in ("generated", "distinct", "depth", "wall_s")} | {"cfg": c1}
     stats["laws"] = {k: r2[k] for k in ("generated", "distinct", "depth", "wall_s")} | {"cfg": c2}
     stats["sim"] = {"traces": len(r3["traces"]), "num": nsim, "wall_s": r3["wall_s"]}
     stats["bfs"] = {"traces": len(r4["traces"]), "wall_s": r4["wall_s"]}
     if not quick:
-        r5 = tlc("QuerySem.laws.neg.cfg", workers=8, timeout=1500)
+        with cf.ThreadPoolExecutor(2) as ex:
+            f5 = ex.submit(tlc, "QuerySem.laws.neg.cfg", workers=8, timeout=2400)
+            f6 = ex.submit(tlc, "QuerySem.chunk.thorough5.cfg", workers=8, timeout=2400)
+            r5, r6 = f5.result(), f6.result()
         stats["laws_neg"] = {k: r5[k] for k in ("generated", "distinct", "wall_s")}
+        stats["chunk5"] = {k: r6[k] for k in ("generated", "distinct", "depth", "wall_s")} | {"cfg": "QuerySem.chunk.thorough5.cfg"}
     # (data set, query) pairs, grouped by data set
     sets, order = {}, []
 
@@ -512,6 +515,20 @@ class Node:
         if missing:
             raise vlib.Infra(f"rows not visible after {timeout}s: {missing}")
 
+    def wait_merged(self, timeout):
+        """True once no out-of-order file is left in the data directory (the merge is a background task)"""
+        t0 = time.time()
+        while time.time() - t0 < timeout:
+            left = 0
+            for root, dirs, files in os.walk(os.path.join(self.srv.dir, "data")):
+                if os.path.basename(root) == "out-of-order":
+                    left += sum(1 for f in files if f.endswith(".tssp"))
+            if left == 0:
+                time.sleep(1.0)
+                return True
+            time.sleep(0.5)
+        return False
+
     def run_query(self, text, chunked, ics):
         p = {"db": "db0", "epoch": "ns", "q": text}
         if chunked:
@@ -539,13 +556,13 @@ def expand_ids(kid):
 def predicate_finding(q, mst_kind, open_ids, desc=False, ics=None, small_segments=False):
     """findings whose wrong answers cannot be predicted (they depend on the layout and on the order in which series are
     read): any divergence of a query satisfying the finding's predicate is attributed to it"""
-    if mst_kind == "n" and (ics in (1, 2, 3) or small_segments) and q["kind"] == "agg" and "F-C08-8" in open_ids:
-        return "F-C08-8"
     if q["fldc"]["k"] != "none":
         if mst_kind == "n" and "F-C08-7" in open_ids:
             return "F-C08-7"
         if q["kind"] == "agg" and q["fldc"]["f"] not in {c["f"] for c in q["calls"]} and "F-C08-6" in open_ids:
             return "F-C08-6"
+    if mst_kind == "n" and (desc or ics in (1, 2, 3) or small_segments) and q["kind"] == "agg" and "F-C08-8" in open_ids:
+        return "F-C08-8"
     return ""
 
 
@@ -627,12 +644,43 @@ class Run:
             with self.lock:
                 self.results.append(rec)
 
-    def round(self, node, label, mst_kinds, variants_of):
-        """run every case under the variants chosen by variants_of(si, ci, mst_kind) -> [(desc, chunked, ics)]"""
+    def sentinel_btm(self, node):
+        """F-C08-3: with binary_tree_merge=1 every answer is empty; one plain query re-observes it, then the switch is off"""
+        pick = None
+        for si, ci, e in self.cases():
+            q = e["q"]
+            if q["kind"] == "raw" and q["fldc"]["k"] == "none" and q["lim"] == NONE and e["exp"]["asc"]:
+                pick = (si, ci, e)
+                break
+        if pick is None:
+            return
+        si, ci, e = pick
+        conc = self.concs[si]
+        text = conc.render(e["q"], conc.m, False, random.Random(f"{self.seed}-{si}-{ci}-False"))
+        node.ctrl(mod="binary_tree_merge", enabled="1")
+        try:
+            err, series = node.run_query(text, None, None)
+        finally:
+            node.ctrl(mod="binary_tree_merge", enabled="0")
+        with self.lock:
+            self.nq += 1
+        d = err or Judge(conc, e["q"]).answer_ok(e["exp"]["asc"], series, conc.m)
+        if not d:
+            vlib.log(f"[c08] server {node.name}: F-C08-3 not re-observed (binary_tree_merge=1 answered correctly)")
+            return
+        kid = "F-C08-3" if (not err and series == [] and "F-C08-3" in self.open) else ""
+        with self.lock:
+            self.results.append({"set": si, "case": ci, "config": f"{node.name}/binary_tree_merge=1", "server": node.name, "query": text,
+                                 "detail": "empty answer: " + d, "known": kid, "mst_kind": "m", "desc": False, "chunked": None,
+                                 "ics": None, "label": f"{node.name}/binary_tree_merge=1"})
+
+    def round(self, node, label, plan, tag):
+        """plan: {copy: full?}; every case is run on the named copies under all 24 (direction, chunking, inner chunk size)
+        variants (full) or under a seeded sample of 6 of them"""
         jobs = []
         for si, ci, e in self.cases():
-            for mk in mst_kinds:
-                for (desc, chunked, ics) in variants_of(si, ci, mk):
+            for mk in plan:
+                for (desc, chunked, ics) in self.variants(plan[mk], tag)(si, ci, mk):
                     jobs.append((node, label + "/" + {"m": "single", "n": "split"}[mk], si, ci, e, mk, desc, chunked, ics))
         with cf.ThreadPoolExecutor(6) as ex:
             for f in [ex.submit(self.one, *j) for j in jobs]:
@@ -657,12 +705,15 @@ class Run:
         full = self.tier != "quick"
         try:
             node.ddl("create database db0 with duration 0s shard duration 1h name rp0")
+            # layouts stay as the check builds them: no background compaction / out-of-order merge until asked for
+            node.ctrl(mod="compen", allshards="false")
+            node.ctrl(mod="merge", allshards="false")
             # 1. everything of the 'single' copies into the memtable
             for c in self.concs:
                 node.write(c.lines(c.m, c.rows))
             node.wait_series({c.m: c.nseries() for c in self.concs})
             node.wait_rows({c.m: len(c.rows) for c in self.concs})
-            self.round(node, f"{name}/memtable", ["m"], self.variants(full, "r1"))
+            self.round(node, f"{name}/memtable", {"m": full}, "r1")
             # 2. first part of the 'split' copies, flush, second part
             parts = [c.split() for c in self.concs]
             for c, (p1, p2) in zip(self.concs, parts):
@@ -673,15 +724,21 @@ class Run:
             node.wait_series({c.n: c.nseries() for c in self.concs})
             node.wait_rows({c.n: len(c.rows) for c in self.concs})
             node.ctrl(mod="chunk_reader_parallel", limit="1")
-            self.round(node, f"{name}/flushed,file+memtable,chunk_reader_parallel=1", ["m", "n"], self.variants(full, "r2"))
+            self.round(node, f"{name}/flushed,file+memtable,chunk_reader_parallel=1", {"m": False, "n": full}, "r2")
             # 3. second flush: the split copies are two files (ordered + out of order)
             node.srv.flush()
             node.ctrl(mod="chunk_reader_parallel", limit="4")
-            self.round(node, f"{name}/two files,chunk_reader_parallel=4", ["n"] if not full else ["m", "n"],
-                       self.variants(full, "r3"))
+            self.round(node, f"{name}/two files,chunk_reader_parallel=4", {"n": full, "m": False} if full else {"n": False}, "r3")
+            self.sentinel_btm(node)
             if full:
+                # 4. let the out-of-order merge and the compaction run: "after compaction"
                 node.ctrl(mod="chunk_reader_parallel", limit="0")
-                self.round(node, f"{name}/two files,chunk_reader_parallel=0", ["n"], self.variants(False, "r4"))
+                node.ctrl(mod="merge", allshards="true")
+                node.ctrl(mod="compen", allshards="true")
+                if node.wait_merged(90):
+                    self.round(node, f"{name}/merged,chunk_reader_parallel=0", {"n": False}, "r4")
+                else:
+                    vlib.log(f"[c08] server {name}: out-of-order files not merged within 90s, phase skipped")
         finally:
             node.stop()
 
@@ -787,3 +844,15 @@ def replay(path, seed):
         return 1
     print("replay passes" + (" (known finding re-observed)" if r.results else ""))
     return 0
+
+
+def selftest(seed):
+    """every mutation seed of the specification must make TLC find a counterexample (the invariants are not vacuous)"""
+    ok = True
+    for dev, inv in [(d, "Laws") for d in DEVS_LAWS] + [(d, "ChunkIndependence") for d in DEVS_CHUNK]:
+        r = vlib.run_tlc("QuerySemMC", f"QuerySem.dev.{dev}.cfg", workers=8, timeout=900)
+        caught = r["violated"] == inv
+        ok = ok and caught
+        print(f"Dev={{{dev}}}: {'counterexample to ' + inv if caught else 'NOT CAUGHT: ' + str(r['violated']) + ' ' + str(r['error'])}"
+              f" ({r['generated']} states, {r['wall_s']:.1f}s)")
+    return 0 if ok else 1
